@@ -1457,8 +1457,9 @@ pub struct KnownKeyFlags {
     draft_decrypt_forwarded: bool,
     #[bits(1)]
     group: bool,
+    /// Reserved bits, kept as they are so that unknown flags round trip.
     #[bits(2)]
-    _padding1: u8,
+    reserved1: u8,
 
     /// Non-standard Additional Decryption SubKey flag
     ///
@@ -1472,8 +1473,9 @@ pub struct KnownKeyFlags {
     adsk: bool,
     #[bits(1)]
     timestamping: bool,
+    /// Reserved bits, kept as they are so that unknown flags round trip.
     #[bits(4)]
-    _padding2: u8,
+    reserved2: u8,
 }
 
 /// Features signature subpacket.
